@@ -54,6 +54,13 @@ fn main() {
     let mut wm: World<RecMutex> = World::new(Cfg::from_json(&json!({"own": {"id": 5}, "ports": [{"p2p": false}], "seed": seed})));
     wm.start();
     wm.step(&json!({"e": "t", "k": "rcpt", "p": 1}));
+    // a slave port for the other direction: a received originTimestamp (wire) becomes a Time
+    let mut ws: World<RecMutex> = World::new(Cfg::from_json(&json!({"own": {"id": 5}, "ports": [{"p2p": false}], "seed": seed})));
+    ws.start();
+    for sq in [1u64, 2] { ws.step(&json!({"e": "ann", "p": 1, "src": [2, 1], "seq": sq, "g": [1, 6, 33, 100, 1, 2], "steps": 0})); }
+    ws.step(&json!({"e": "bmca"}));
+    let mut rx_checks = 0u64;
+    let mut sync_seq = 100u64;
     let check_ops = |t: i128, d: i128, cx: &mut Ctx, vec: &Value, model: Option<&Value>, under: &mut u64, over: &mut u64| {
         let tt = time_from_bits(t as u128);
         let dd = dur_from_bits(d);
@@ -123,6 +130,24 @@ fn main() {
             if f["t"] != "FollowUp" || f["ts"] != want_ts.as_str() || f["tsum"] != want_sum.as_str() {
                 cx.fail(format!("Follow_Up for transmit time {}: origin {} (expected {}), origin+correction {} (expected {})", t, f["ts"], want_ts, f["tsum"], want_sum), &v);
             }
+            // receive direction: a one-step Sync from the parent whose originTimestamp is ToWire(t), received at local time t with a zero
+            // correction field: the raw offset handed to the filter is t - FromWire(ToWire(t)), the sub-nanosecond part of t
+            if ws.project(&json!({}))["pst"][0] == "S" {
+                rx_checks += 1;
+                sync_seq = (sync_seq + 1) % 65536;
+                let wire_bits = ((t >> 32) << 32) as u128;
+                let res = ws.step(&json!({"e": "sync", "p": 1, "src": [2, 1], "seq": sync_seq, "two": false, "rx": format!("={}", t as u128), "c": "c0#zero", "w1": format!("={}", wire_bits)}));
+                if res.get("panic").is_some() { cx.fail(format!("receiving a Sync with originTimestamp {} s panicked: {}", (t >> 32) / 1_000_000_000, res["panic"]), &v); }
+                else {
+                    let pr = ws.project(&res);
+                    let m = pr["flt"].as_array().and_then(|a| a.iter().rev().find(|x| x["k"] == "meas")).cloned();
+                    let want = (t - (wire_bits as i128)).to_string();
+                    match m {
+                        Some(m) if m["rs"] == want.as_str() && m["et"] == (t as u128).to_string().as_str() => {}
+                        other => cx.fail(format!("Sync with originTimestamp ToWire(t), t = {}: the filter saw {:?}, expected raw offset {} at event time {}", t, other, want, t), &v),
+                    }
+                }
+            }
             let iv = &v["interval"];
             let want_iv = dur(iv) >> 16;
             if want_iv.abs() < (1i128 << 62) {
@@ -164,5 +189,5 @@ fn main() {
             }
         }
     }
-    println!("{}", json!({"vectors": cx.n, "underflow_vectors": under, "beyond_ptp_range": over, "port_checks": port_checks, "log_intervals": logs, "samples": samples, "violations": cx.viol}));
+    println!("{}", json!({"vectors": cx.n, "underflow_vectors": under, "beyond_ptp_range": over, "port_checks": port_checks, "receive_checks": rx_checks, "log_intervals": logs, "samples": samples, "violations": cx.viol}));
 }
